@@ -230,7 +230,9 @@ func (m *Model) analyseStruct(op *spb.AFTOperation) (Validity, *Entry, string) {
 			return Invalid, e, "label out of range"
 		}
 		if lu.LabelUint64 < 16 {
-			return Unspecified, e, "reserved label value"
+			// the AFT schema's numeric label range is 16..1048575 (reserved labels are spelt as enum
+			// values): a uint64 label below 16 is out of range for an ADD and for a DELETE alike
+			return Invalid, e, "label out of range (reserved value given as a number)"
 		}
 		if !isDel && t.Mpls.LabelEntry == nil {
 			return Invalid, e, "nil label payload"
